@@ -284,6 +284,15 @@ func (ex *Explorer) Run() error {
 			ex.Stats.UnsatN += st.UnsatN
 			ex.Stats.UnknownN += st.UnknownN
 			ex.Stats.SolverTime += st.SolverTime
+			ex.Stats.FallbackN += st.FallbackN
+			ex.Stats.FallbackOK += st.FallbackOK
+			ex.Stats.FallbackTime += st.FallbackTime
+			for k, n := range st.FallbackBy {
+				if ex.Stats.FallbackBy == nil {
+					ex.Stats.FallbackBy = map[string]int{}
+				}
+				ex.Stats.FallbackBy[k] += n
+			}
 			ex.Stats.Errors = append(ex.Stats.Errors, st.Errors...)
 			ex.mu.Unlock()
 		}(w)
@@ -870,6 +879,10 @@ type Summary struct {
 	Sat         int            `json:"sat"`
 	Unsat       int            `json:"unsat"`
 	Unknown     int            `json:"unknown"`
+	Fallbacks   int            `json:"fallback_queries"`          // incremental solver said unknown, fresh one-shot solvers asked
+	FallbackOK  int            `json:"fallback_queries_decided"`  // ... and one of them gave a definite answer
+	FallbackBy  map[string]int `json:"fallback_decided_by,omitempty"`
+	FallbackS   float64        `json:"fallback_time_s"`
 	SolverTimeS float64        `json:"solver_time_s"`
 	WallS       float64        `json:"wall_s"`
 	Reached     map[string]int `json:"reached"`
@@ -891,7 +904,8 @@ type Summary struct {
 func (ex *Explorer) Summary(wall time.Duration) *Summary {
 	s := &Summary{Harness: ex.Cfg.Harness, Paths: ex.Paths, Outcomes: ex.Outcomes, Decisions: ex.Decisions,
 		MaxDecDepth: ex.MaxDepthSeen, Queries: ex.Stats.Queries, Sat: ex.Stats.SatN, Unsat: ex.Stats.UnsatN,
-		Unknown: ex.Stats.UnknownN, SolverTimeS: ex.Stats.SolverTime.Seconds(), WallS: wall.Seconds(),
+		Unknown: ex.Stats.UnknownN, Fallbacks: ex.Stats.FallbackN, FallbackOK: ex.Stats.FallbackOK, FallbackBy: ex.Stats.FallbackBy,
+		FallbackS: ex.Stats.FallbackTime.Seconds(), SolverTimeS: ex.Stats.SolverTime.Seconds(), WallS: wall.Seconds(),
 		Reached: ex.Reached, AssertsOK: ex.AssertsOK, AssertsUnk: ex.AssertsUnk, Problems: ex.Msgs, Notes: ex.Notes,
 		Violations: ex.Violations, Samples: ex.Samples, SolverErrs: ex.Stats.Errors, TimedOut: ex.TimedOut,
 		Budgeted: ex.Budgeted, Bounds: ex.Cfg, Witnesses: ex.WitnessTapes, ForkSites: ex.ForkSites}
